@@ -75,16 +75,21 @@ def parse_der(b, pos=0):
 # ------------------------------------------------------------------ keys / certificates
 
 class Key:
-    def __init__(self, name):
+    def __init__(self, name, kind="rsa"):
+        """kind: rsa (2048 bit) or ec (P-256)"""
         os.makedirs(DIR, exist_ok=True)
+        self.kind = kind
         self.pem = os.path.join(DIR, name + ".key.pem")
         with open(os.path.join(DIR, ".lock"), "w") as lk:
             fcntl.flock(lk, fcntl.LOCK_EX)
             if not os.path.exists(self.pem):
                 tmp = self.pem + ".%d" % os.getpid()
-                _run(["openssl", "genrsa", "-out", tmp, "2048"])
+                if kind == "ec":
+                    _run(["openssl", "ecparam", "-name", "prime256v1", "-genkey", "-noout", "-out", tmp])
+                else:
+                    _run(["openssl", "genrsa", "-out", tmp, "2048"])
                 os.rename(tmp, self.pem)
-        self.spki = _run(["openssl", "rsa", "-in", self.pem, "-pubout", "-outform", "DER"])
+        self.spki = _run(["openssl", "pkey", "-in", self.pem, "-pubout", "-outform", "DER"])
         self._sigs = {}
 
     def sign(self, data):
